@@ -239,3 +239,132 @@ Print Assumptions C11_attest_other_chain.
 Print Assumptions C11_padding_removed.
 Print Assumptions C11_attest_padded.
 Print Assumptions C11_attest_event.
+
+(* ================================================================== (8) the conversions inside the running watcher (X2) *)
+(* model.AlphPipeline composes this file's conversions with the watcher of C08 / C09: events carry their raw fields, and
+   ToWormholeMessage / parseAttestToken / GetTokenInfo / toMessagePublication are applied where watcher.go / reobserve.go apply
+   them.  `faithful c EP HP AP f` is what proofs.AlphPipelineProofs.pipeline_end_to_end (props/C08.v: C08_pipeline_end_to_end)
+   establishes for EVERY message f handed to the signer along EVERY history, on either path. *)
+From WH Require Import model.AlphPipeline proofs.AlphPipelineProofs.
+From WH Require model.AlphWatcher.
+
+(* a forwarded message whose event is the one the contract emits and a node reports (event_fields, all values in range) has
+   exactly that event's values, the block timestamp (whole seconds + millisecond remainder) and the Alephium chain id *)
+Theorem C11_pipeline_fitting_event_message : forall c EP HP AP f sender target sequence nonce payload level,
+  faithful c EP HP AP f -> x_fields (xf_ev f) = event_fields sender target sequence nonce payload level ->
+  length sender = 32%nat -> 0 <= target <= 65535 -> 0 <= sequence < 18446744073709551616 -> length nonce = 4%nat -> 0 <= level <= 255 ->
+  0 <= AlphWatcher.h_ts (xf_hdr f) ->
+  let m := xf_pub f in
+  m_eaddr m = sender /\ sender = xc_bridge c /\ m_tchain m = target /\ m_seq m = sequence /\ m_nonce m = unbe nonce /\ m_payload m = payload /\ m_cl m = level /\
+  m_echain m = 255 /\ m_tx m = hex_to_hash (x_txid (xf_ev f)) /\
+  m_ts m = AlphWatcher.h_ts (xf_hdr f) / 1000 /\ m_tns m = (AlphWatcher.h_ts (xf_hdr f) mod 1000) * 1000000.
+Proof. exact fitting_event_message. Qed.
+
+(* for ANY raw fields: the message carries exactly the values the six fields denote (C11_accepted_exactly inside the pipeline) *)
+Theorem C11_pipeline_message_fields : forall c EP HP AP f, faithful c EP HP AP f -> 0 <= AlphWatcher.h_ts (xf_hdr f) ->
+  let m := xf_pub f in
+  exists s0 s1 s2 s3 s4 s5 nonce,
+    x_fields (xf_ev f) = [VByteVec Ty.bytevec s0; VU256 Ty.u256 s1; VU256 Ty.u256 s2; VByteVec Ty.bytevec s3; VByteVec Ty.bytevec s4; VU256 Ty.u256 s5] /\
+    hex_decode s0 = Some (m_eaddr m) /\ length (m_eaddr m) = 32%nat /\ m_eaddr m = xc_bridge c /\
+    parse_dec s1 = Some (m_tchain m) /\ 0 <= m_tchain m <= 65535 /\
+    parse_dec s2 = Some (m_seq m) /\ 0 <= m_seq m < 18446744073709551616 /\
+    hex_decode s3 = Some nonce /\ length nonce = 4%nat /\ m_nonce m = unbe nonce /\
+    hex_decode s4 = Some (m_payload m) /\
+    parse_dec s5 = Some (m_cl m) /\ 0 <= m_cl m <= 255 /\
+    m_echain m = 255 /\ m_tx m = hex_to_hash (x_txid (xf_ev f)) /\
+    m_ts m = AlphWatcher.h_ts (xf_hdr f) / 1000 /\ m_tns m = (AlphWatcher.h_ts (xf_hdr f) mod 1000) * 1000000.
+Proof. exact faithful_message_fields. Qed.
+
+(* events whose values do not fit produce NO message: neither a held event on the polling path (whatever the node says about
+   the token they name) nor anything a forwarded message could stem from *)
+Theorem C11_pipeline_unfit_no_message : forall e, unfit e ->
+  (forall a, xkeep1 a e = []) /\ (forall c EP HP AP f, faithful c EP HP AP f -> xf_ev f <> e).
+Proof.
+  intros e H. split; [intro a; apply xkeep1_unfit; exact H|].
+  intros c EP HP AP f Hf E. apply (faithful_not_unfit c EP HP AP f Hf). rewrite E. exact H.
+Qed.
+
+Theorem C11_pipeline_rejected_values_are_unfit : forall e f0 s1 s2 f3 f4 s5,
+  x_fields e = [f0; VU256 Ty.u256 s1; VU256 Ty.u256 s2; f3; f4; VU256 Ty.u256 s5] ->
+  ~ fits 16 (parse_dec s1) \/ ~ fits 64 (parse_dec s2) \/ ~ fits 8 (parse_dec s5) -> unfit e.
+Proof. exact rejected_values_unfit. Qed.
+
+(* attestations end to end: a forwarded attest-token message whose payload is the one token_bridge.ral builds for
+   (id, decimals, symbol, name) was compared with - and equals - what GetTokenInfo made of an answer of the node about token id:
+   (id, decimals, NUL-trimmed symbol, NUL-trimmed name) *)
+Theorem C11_pipeline_contract_attestation : forall c EP HP AP f id decimals symbol name nonce,
+  faithful c EP HP AP f -> xis_attest (xf_msg f) = true ->
+  attest_payload id go_chain_id_alephium decimals symbol name nonce = Some (m_payload (xf_pub f)) ->
+  exists a, AP a /\ xget_token_info id a =
+    XTiOk {| t_id := id; t_decimals := decimals; t_symbol := bytes_to_string symbol; t_name := bytes_to_string name |}.
+Proof. exact forwarded_contract_attestation. Qed.
+
+Theorem C11_pipeline_attestation_equals_chain : forall c EP HP AP f, faithful c EP HP AP f -> xis_attest (xf_msg f) = true ->
+  exists t a, parse_attest_token (m_payload (xf_pub f)) = COk t /\ xf_chain f = Some t /\ AP a /\ xget_token_info (t_id t) a = XTiOk t.
+Proof. exact forwarded_attestation_equals_chain. Qed.
+
+(* ---- the hypotheses are satisfiable: one fitting event (every numeric field at its upper boundary) and one attestation through
+   the composed watcher (poll, hand-over, height tick) *)
+Definition px_bridge : bytes := repeat x07 32.
+Definition px_c : xcfg := {| xc_gov := 10; xc_bridge := px_bridge; xc_mainnet := false |}.
+Definition px_nonce : bytes := [x12; xe5; x51; xd9].
+Definition px_tokid : bytes := repeat x09 31 ++ [x01].
+Definition px_sym : bytes := repeat x00 28 ++ str "USDT".
+Definition px_name : bytes := repeat x00 26 ++ str "Tether".
+Definition px_attest : bytes := match attest_payload px_tokid 255 8 px_sym px_name px_nonce with Some p => p | None => [] end.
+Definition px_e1 : xevent := {| x_uid := 1; x_block := 5; x_txid := to_hex (repeat xaa 32); x_index := 0;
+                                x_fields := event_fields px_bridge 65535 18446744073709551615 px_nonce [x01; x02; x03] 255 |}.
+Definition px_e2 : xevent := {| x_uid := 2; x_block := 5; x_txid := to_hex (repeat xab 32); x_index := 0;
+                                x_fields := event_fields px_bridge 0 7 px_nonce px_attest 0 |}.
+Definition px_e3 : xevent := {| x_uid := 3; x_block := 5; x_txid := to_hex (repeat xac 32); x_index := 0;
+                                x_fields := event_fields px_bridge 2 8 px_nonce [x01] 256 |}.
+Definition px_ans : xmc_ans := XMcRes [XOk [vbytes (str "USDT")]; XOk [vbytes (str "Tether")]; XOk [vu256 8]].
+Definition px_hdr : AlphWatcher.header := {| AlphWatcher.h_ts := 1663000000123; AlphWatcher.h_height := 100 |}.
+Definition px_ops : list xop :=
+  [ XPoll (Some 3) (fun _ _ => XPage [px_e1; px_e2; px_e3] 3) (fun _ => px_ans); XDeliver;
+    XTick 400 1663000000123000 (fun _ => Some true) (fun _ => Some px_hdr) ].
+Definition px_EP (e : xevent) : Prop := x_block e = 5.
+Definition px_HP (b : Z) (h : AlphWatcher.header) : Prop := h = px_hdr.
+Definition px_AP (a : xmc_ans) : Prop := a = px_ans.
+
+Example C11_pipeline_hypotheses_satisfiable :
+  exists f g, xo_fwd (snd (xstep px_c (xfinal px_c (xinit 0) (firstn 2 px_ops)) (nth 2 px_ops XDeliver))) = [f; g] /\
+    faithful px_c px_EP px_HP px_AP f /\ faithful px_c px_EP px_HP px_AP g /\
+    x_fields (xf_ev f) = event_fields px_bridge 65535 18446744073709551615 px_nonce [x01; x02; x03] 255 /\ 0 <= AlphWatcher.h_ts (xf_hdr f) /\
+    (let m := xf_pub f in m_tchain m = 65535 /\ m_seq m = 18446744073709551615 /\ m_cl m = 255 /\ m_nonce m = 317018585 /\ m_ts m = 1663000000 /\ m_echain m = 255) /\
+    xis_attest (xf_msg g) = true /\ attest_payload px_tokid go_chain_id_alephium 8 px_sym px_name px_nonce = Some (m_payload (xf_pub g)) /\
+    unfit px_e3.
+Proof.
+  assert (Hok : Forall (xop_ok px_c px_EP px_HP px_AP) px_ops).
+  { unfold px_ops. repeat apply Forall_cons; try apply Forall_nil; try exact I.
+    - split; [|intro i; reflexivity]. intros k s evs next H. injection H as <- <-. repeat constructor.
+    - intros b h H. injection H as <-. reflexivity. }
+  pose proof (pipeline_end_to_end px_c px_EP px_HP px_AP px_ops (xinit 0) (XInv_init _ _ _ 0) Hok) as J.
+  remember (xall_fwds px_c (xinit 0) px_ops) as l eqn:E.
+  assert (E1 : map snd l = xo_fwd (snd (xstep px_c (xfinal px_c (xinit 0) (firstn 2 px_ops)) (nth 2 px_ops XDeliver)))).
+  { subst l. unfold px_ops. cbn [xall_fwds firstn xfinal nth]. rewrite app_nil_r.
+    set (s2 := fst (xstep px_c (fst (xstep px_c (xinit 0) _)) XDeliver)).
+    assert (N1 : xo_fwd (snd (xstep px_c (xinit 0) (XPoll (Some 3) (fun _ _ => XPage [px_e1; px_e2; px_e3] 3) (fun _ => px_ans)))) = []) by (vm_compute; reflexivity).
+    assert (N2 : xo_fwd (snd (xstep px_c (fst (xstep px_c (xinit 0) (XPoll (Some 3) (fun _ _ => XPage [px_e1; px_e2; px_e3] 3) (fun _ => px_ans)))) XDeliver)) = []) by (vm_compute; reflexivity).
+    rewrite N1, N2. cbn [map app]. rewrite map_map. cbn [snd]. apply map_id. }
+  remember (xo_fwd (snd (xstep px_c (xfinal px_c (xinit 0) (firstn 2 px_ops)) (nth 2 px_ops XDeliver)))) as fw eqn:Ef.
+  assert (E2 : map (fun f => x_uid (xf_ev f)) fw = [1; 2]) by (subst fw; vm_compute; reflexivity).
+  destruct fw as [|f [|g [|x t]]]; try discriminate E2.
+  destruct l as [|[o1 f'] [|[o2 g'] [|y t']]]; try discriminate E1. cbn [map snd] in E1. injection E1 as -> ->.
+  inversion J as [|x0 t0 [[Ff _] _] J1]; subst x0 t0. inversion J1 as [|x1 t1 [[Fg _] _] _]; subst x1 t1. cbn [fst snd] in Ff, Fg.
+  exists f, g. split; [reflexivity|]. split; [exact Ff|]. split; [exact Fg|].
+  assert (V : x_fields (xf_ev f) = event_fields px_bridge 65535 18446744073709551615 px_nonce [x01; x02; x03] 255 /\ AlphWatcher.h_ts (xf_hdr f) = 1663000000123 /\
+              (let m := xf_pub f in m_tchain m = 65535 /\ m_seq m = 18446744073709551615 /\ m_cl m = 255 /\ m_nonce m = 317018585 /\ m_ts m = 1663000000 /\ m_echain m = 255) /\
+              xis_attest (xf_msg g) = true /\ attest_payload px_tokid go_chain_id_alephium 8 px_sym px_name px_nonce = Some (m_payload (xf_pub g))).
+  { assert (Ev : [f; g] = xo_fwd (snd (xstep px_c (xfinal px_c (xinit 0) (firstn 2 px_ops)) (nth 2 px_ops XDeliver)))) by exact Ef.
+    clear - Ev. revert Ev. vm_compute. intro Ev. injection Ev as -> ->. repeat split; reflexivity. }
+  destruct V as (V1 & V2 & V3 & V4 & V5). repeat apply conj; auto; try (rewrite V2; lia); try apply V3.
+  eapply (C11_pipeline_rejected_values_are_unfit px_e3); [reflexivity|right; right; vm_compute; intros [_ H]; discriminate H].
+Qed.
+
+Print Assumptions C11_pipeline_fitting_event_message.
+Print Assumptions C11_pipeline_message_fields.
+Print Assumptions C11_pipeline_unfit_no_message.
+Print Assumptions C11_pipeline_rejected_values_are_unfit.
+Print Assumptions C11_pipeline_contract_attestation.
+Print Assumptions C11_pipeline_attestation_equals_chain.
